@@ -508,7 +508,7 @@ func init() {
 								// pairs: all of them in the thorough tier (first-use statements), a seeded sample otherwise
 								for _, a := range calls {
 									for _, b := range calls {
-										if tier != "thorough" && rng.Intn(220) != 0 || tier == "thorough" && rng.Intn(2) != 0 || pre != "" && rng.Intn(4) != 0 {
+										if tier != "thorough" && rng.Intn(330) != 0 || tier == "thorough" && rng.Intn(2) != 0 || pre != "" && rng.Intn(4) != 0 {
 											continue
 										}
 										one(kind, pre, allow, key, unscoped, []c09Call{a, b}, fin)
@@ -527,7 +527,7 @@ func init() {
 		flush()
 		r.Exhaustive = true
 		r.Note("blocking side enumerated exhaustively: %d condition-free calls (9 empty forms x Where/Not/Or + 28 other chain methods and extra clauses), "+
-			"none/one call and pairs (half of the pairs in thorough, 1/220 sample in quick) x 10 finishers (struct and slice model values) x plain/soft-delete/two-soft-delete-columns x "+
+			"none/one call and pairs (half of the pairs in thorough, 1/330 sample in quick) x 10 finishers (struct and slice model values) x plain/soft-delete/two-soft-delete-columns x "+
 			"first use or reuse of the statement after Count/Pluck x AllowGlobalUpdate off/config/session x key zero/set x Unscoped; the transaction mode "+
 			"(implicit / SkipDefaultTransaction session+config / Begin..Commit / Transaction / PrepareStmt) is drawn per case", len(c09Calls(false)))
 	})
